@@ -758,18 +758,21 @@ void reb_integrator_bs_part2(struct reb_simulation* r){
     struct reb_integrator_bs* ri_bs = &(r->ri_bs);
     
     unsigned int nbody_length = r->N*3*2;
+    // Keep first_or_last_step (e.g. restored from a binary file) if the ode just needs to be allocated.
+    int first_or_last_step = ri_bs->first_or_last_step;
     // Check if particle numbers changed, if so delete and recreate ode.
     if (ri_bs->nbody_ode != NULL){ 
         if (ri_bs->nbody_ode->length != nbody_length){
             reb_ode_free(ri_bs->nbody_ode);
             ri_bs->nbody_ode = NULL;
+            first_or_last_step = 1;
         }
     }
     if (ri_bs->nbody_ode == NULL){ 
         ri_bs->nbody_ode = reb_ode_create(r, nbody_length);
         ri_bs->nbody_ode->derivatives = nbody_derivatives;
         ri_bs->nbody_ode->needs_nbody = 0; // No need to update unless there's another ode
-        ri_bs->first_or_last_step = 1;
+        ri_bs->first_or_last_step = first_or_last_step;
     }
     
     for (int s=0; s < r->N_odes; s++){
